@@ -211,6 +211,9 @@ def _lh():
 
 
 _ALLK = HIST
+# histories of three runs over the kinds that leave something behind if mishandled
+_SUBK = ['op_interrupt_in_body', 'op_output_then_discard', 'op_forced_then_discarded', 'idle_force', 'replay_missing_key_after_output',
+         'replay_function_raises', 'replay_key_creation_error', 'op_sampled_out', 'op_output_then_capture_fault', 'replay_ok']
 CONDITIONS = [
     {'fn': 'history_independent', 'nontrivial': 'history',
      'what': 'recorder idle after every run of a symbolic history; probe operation / replay equal to a fresh recorder\'s; '
@@ -218,7 +221,8 @@ CONDITIONS = [
      'tiers': {'quick': {'bounds': {'H': 2, 'KINDS': _ALLK}, 'timeout': 500,
                          'shards': [{'first': None}] + [{'first': i} for i in range(len(_ALLK))],
                          'witness_shard': {'first': 1}},
-               'thorough': {'bounds': {'H': 3, 'KINDS': _ALLK}, 'timeout': 6000,
-                            'shards': [{'first': None}] + [{'first': i} for i in range(len(_ALLK))],
+               'thorough': {'bounds': {'H': 2, 'KINDS': _ALLK}, 'timeout': 6000,
+                            'shards': [{'first': None}] + [{'first': i} for i in range(len(_ALLK))] +
+                                      [{'first': i, 'b.H': 3, 'b.KINDS': _SUBK} for i in range(len(_SUBK))],
                             'witness_shard': {'first': 1}}}},
 ]
